@@ -376,6 +376,99 @@ def task_lindep(systems, maxpref):
     return res
 
 
+REPLAY_INV = '''
+import numpy as np
+from fractions import Fraction
+from chempy import ReactionSystem, Substance
+rxn_strs = %(rxns)r
+rsys = ReactionSystem.from_string("\\n".join(s + "; %%d" %% (3 + 2 * i) for i, s in enumerate(rxn_strs)), substance_factory=Substance.from_formula)
+names = list(rsys.substances)
+B, ck = rsys.composition_balance_vectors()
+conc = {n: Fraction(2 + 3 * i, 7) for i, n in enumerate(names)}
+bad = []
+for label, variables, pick in (("scalars", dict(conc), lambda v: v),
+                               ("arrays", {n: np.array([v, 2 * v + 1], dtype=object) for n, v in conc.items()}, lambda v: v[0] if hasattr(v, "__len__") else v)):
+    for rep in (1, 2):
+        rates = rsys.rates(variables)
+        for row, k in zip(B, ck):
+            tot = sum(int(b) * pick(rates.get(n, 0)) for n, b in zip(names, row))
+            if tot != 0: bad.append("%%s, evaluation %%d: composition key %%s is not conserved by the rates (sum = %%s)" %% (label, rep, k, tot))
+for b in bad[:6]: print("MISMATCH", b)
+sys.exit(1 if bad else 0)
+'''
+
+
+def task_invariants(systems):
+    """Engine S: the REAL ReactionSystem.rates output (symbolic concentrations and rate constants; scalars and array-valued, evaluated twice)
+    is annihilated by every composition vector: sum_i B[k][i] * rate_i == 0 as a polynomial identity (z3)"""
+    import numpy as np
+    import sympy
+    from chempy import ReactionSystem, Substance
+    from vlib.s2z import Conv
+
+    res = dict(engine="S", functions=[env.describe(ReactionSystem.rates), env.describe(ReactionSystem.composition_balance_vectors)],
+               obligations=0, discharged=0, violations=[], inconclusive=[], queries=0, solver_s=0.0,
+               bounds="%d systems; concentrations and rate constants free reals; scalar and array-valued (mutable) concentrations" % len(systems))
+    twin_seen = False
+    for rxn_strs in systems:
+        try:
+            rsys = ReactionSystem.from_string("\n".join(s + "; 'k%d'" % i for i, s in enumerate(rxn_strs)), substance_factory=Substance.from_formula)
+        except Exception as e:
+            res["inconclusive"].append("build failed for %s: %r" % (rxn_strs, e))
+            continue
+        names = list(rsys.substances)
+        B, ck = rsys.composition_balance_vectors()
+        cs = {n: sympy.Symbol("c%d" % i, positive=True) for i, n in enumerate(names)}
+        ks = {"k%d" % i: sympy.Symbol("k%d" % i, positive=True) for i in range(len(rxn_strs))}
+        forms = []
+        try:
+            v = dict(cs)
+            v.update(ks)
+            forms.append(("scalars", rsys.rates(v), lambda x: x))
+            va = {n: np.array([c, 2 * c + 1], dtype=object) for n, c in cs.items()}
+            va.update(ks)
+            forms.append(("arrays", rsys.rates(va), lambda x: x[0] if hasattr(x, "__len__") else x))
+            forms.append(("arrays, 2nd evaluation", rsys.rates(va), lambda x: x[0] if hasattr(x, "__len__") else x))
+        except Exception as e:
+            res["obligations"] += 1
+            res["violations"].append(dict(key="invariants:exc", desc="%s: rates raised %r" % (rxn_strs, e), replay_src=REPLAY_INV % dict(rxns=rxn_strs)))
+            continue
+        for label, rates, pick in forms:
+            for row, k in zip(B, ck):
+                res["obligations"] += 1
+                t0 = time.time()
+                conv = Conv()
+                tot = sum(int(b) * pick(rates.get(n, 0)) for n, b in zip(names, row))
+                try:
+                    tz = conv(sympy.sympify(tot))
+                except NotImplementedError as e:
+                    res["inconclusive"].append("translation: %s" % e)
+                    continue
+                sv = z3.Solver()
+                sv.set("timeout", 30000)
+                sv.add(tz != 0)
+                r = str(sv.check())
+                res["queries"] += 1
+                res["solver_s"] += time.time() - t0
+                if not twin_seen and any(row):
+                    s2 = z3.Solver()
+                    s2.add(tz + conv(cs[names[0]]) != 0)
+                    twin_seen = str(s2.check()) == "sat"
+                if r == "unsat":
+                    res["discharged"] += 1
+                elif r == "sat":
+                    if not any(vv["key"] == "invariants:" + label.split(",")[0] for vv in res["violations"]):
+                        res["violations"].append(dict(key="invariants:" + label.split(",")[0],
+                                                      desc="%s (%s): composition key %s: sum B*rates = %s is not identically zero" % (rxn_strs, label, k, sympy.simplify(tot)),
+                                                      replay_src=REPLAY_INV % dict(rxns=rxn_strs)))
+                else:
+                    res["inconclusive"].append("unknown for %s key %s" % (rxn_strs, k))
+    res["twin"] = "violated" if twin_seen else "passed"
+    res["sample"] = {"system": systems[0], "rates": "ReactionSystem.rates on sympy symbols (scalars / object arrays)"}
+    res["status"] = "violation" if res["violations"] else ("inconclusive" if res["inconclusive"] else "discharged")
+    return res
+
+
 def tasks(tier, seed):
     ts = []
     lo, hi = (0, 2) if tier == "quick" else (0, 3)
@@ -392,4 +485,8 @@ def tasks(tier, seed):
         ch = systems[i::n]
         if ch:
             ts.append(dict(id="C05.lindep.%02d" % i, fn="task_lindep", kwargs=dict(systems=ch, maxpref=2 if tier == "quick" else 3), timeout=1800))
+    for i in range(2 if tier == "quick" else 8):
+        ch = systems[i:: (2 if tier == "quick" else 8)]
+        if ch:
+            ts.append(dict(id="C05.invariants.%02d" % i, fn="task_invariants", kwargs=dict(systems=ch), timeout=1800))
     return ts
